@@ -321,7 +321,11 @@ def opReuseParse (args : List String) (impl : String) : Result :=
           (if publicHistory then [s!"C17 {fmt}-reused-parser-refuses-a-document-a-new-parser-accepts {impl}"] else []) else
         match impl.splitOn "|" with
         | [a, b, ds] =>
-          (if a != b then [s!"C17 {fmt}-reused-parser-reports-different-events"] else []) ++
+          (if a != b then [s!"C17 {fmt}-reused-parser-reports-different-events"] ++
+             -- same text, same parser type, different events: for JSON the difference is in how a
+             -- literal was read (C04: no number / string is ever reported as a different one)
+             (if fmt == "json" then [s!"C04 json-same-text-read-differently-by-a-parser-that-read-other-documents-before"] else [])
+           else []) ++
           -- nesting stacks only: the JSON parser's second figure is the length of its literal
           -- buffer, which `finalize` leaves filled after a trailing number (no nesting stack)
           (if (ds.splitOn "/").any (fun d =>
